@@ -319,7 +319,7 @@ func init() {
 			judge(c03Case{Sc: sc, Mode: mode})
 			return r.Finish()
 		}
-		n, nh := 1500, 600
+		n, nh := 6000, 2400
 		if thorough() {
 			n, nh = 60000, 20000
 		}
